@@ -247,6 +247,15 @@ fn c04_into_accumulates() {
     let mut dst = [3i64, 4];
     f.fft_inv_into(&[fa[0], fa[1]], &mut dst);
     assert!(dst[0] == 3 + a[0] as i64 && dst[1] == 4 + a[1] as i64, "fft_inv_into adds the inverse transform to the destination");
+    // one-point spectrum (two length-1 operands): still accumulates
+    let one = f.fft(&[a[0]], 1);
+    let mut d1 = [9i64];
+    f.fft_inv_into(&[one[0]], &mut d1);
+    assert!(d1[0] == 9 + a[0] as i64, "fft_inv_into accumulates for a 1-point spectrum as well");
+    let mut d2 = [7i64];
+    f.multiply_into(&[a[0]], &[a[1]], &mut d2);
+    assert!(d2[0] == 7 + ((a[0] * a[1]) % 7) as i64, "multiply_into of two length-1 operands accumulates");
+    core::mem::forget(one);
     core::mem::forget(f);
     core::mem::forget(fa);
 }
